@@ -87,7 +87,18 @@ def _isinstance(v, c) -> bool:
     raise Unsupported("isinstance against an unknown class")
 
 
+class SuperProxy(Stub):
+    """what zero-argument `super()` yields inside a method of an instance stub: the methods of the parent class (`_super` of the stub:
+    (methods, funcs of the parent's module)) bound to the same instance"""
+
+
 def _attr(v, name, funcs, depth):
+    if isinstance(v, SuperProxy):
+        meths, pfuncs = vars(vars(v)["_obj"])["_super"]
+        if name not in meths:
+            raise Unsupported(f"super().{name}: not a method of the parent class in the analysed source")
+        fn = meths[name]
+        return lambda *a, **k: call(fn, [vars(v)["_obj"], *a], k, pfuncs or funcs, depth + 1)
     if isinstance(v, Obj):
         d = vars(v)
         if name == "__class__":
@@ -274,6 +285,10 @@ def ev(n: ast.AST, env: dict[str, Any], funcs: dict[str, ast.FunctionDef] | None
                             return args[2]
                         raise AttributeError(args[1])
                 return getattr(*args)
+            if n.func.id == "super" and not args and not kws and n.func.id not in env:
+                me = env.get("self", env.get("cls"))
+                if isinstance(me, Obj) and "_super" in vars(me):
+                    return SuperProxy(_obj=me)
             if n.func.id == "isinstance" and len(args) == 2:
                 return _isinstance(args[0], args[1])
             if n.func.id == "hasattr" and len(args) == 2 and isinstance(args[1], str):
@@ -447,6 +462,17 @@ def run(stmts: list[ast.stmt], env: dict[str, Any], funcs: dict[str, ast.Functio
             pass        # a local import binds names the world provides among the globals
         elif isinstance(s, ast.Expr) and isinstance(s.value, ast.Constant):
             pass
+        elif isinstance(s, ast.Expr) and isinstance(s.value, ast.Call) and isinstance(s.value.func, ast.Attribute) \
+                and s.value.func.attr in ("append", "extend", "add", "update", "insert", "setdefault", "pop", "remove", "clear", "sort", "reverse", "discard"):
+            # a mutating call on a plain container built by the evaluated code itself
+            recv = ev(s.value.func.value, env, funcs, depth)
+            if not isinstance(recv, (list, dict, set)):
+                raise Unsupported(f"statement `{un(s)[:50]}`")
+            a_ = _starred(s.value.args, env, funcs, depth)
+            k_ = {k.arg: ev(k.value, env, funcs, depth) for k in s.value.keywords if k.arg is not None}
+            getattr(recv, s.value.func.attr)(*a_, **k_)
+        elif isinstance(s, ast.Expr) and isinstance(s.value, ast.Call):
+            ev(s.value, env, funcs, depth)          # evaluated for the calls it makes on stubs (recorded by them)
         elif isinstance(s, ast.Expr) and isinstance(s.value, ast.Yield):
             # a generator is evaluated eagerly: the values it yields are collected (bounded by the loop bound)
             out_y = env.setdefault("$yielded", [])
